@@ -51,3 +51,8 @@ PROP = dict(
                  "16.16 rounding on the default-normalised coordinate is bounded separately (theorem "
                  "fvar_bounds_are_source_bounds) and exercised end to end by the correspondence run"],
 )
+
+MANIFEST = dict(
+    text="Coq model of PiecewiseLinearMap, CoordConverter (user/design/normalized), default normalisation, avar segment-map construction with F2Dot14/Fixed quantisation and the OpenType avar evaluation written from the specification. Theorems for every monotone mapping (any number of rows, flat segments, default at any row) and EVERY user coordinate in range: normalising with fvar then avar equals the source's user->design mapping followed by design normalisation exactly in rationals, and within an explicit bracket after quantisation; segment maps contain -1:-1, 0:0, 1:1 and are monotone (with machine-checked refutations for the two degenerate classes recorded as known findings); fvar bounds are the source bounds; instances lie in range; map/reverse round trip. Tied to the code on every run: converter and to_segment_map (hook) on generated axes, and whole fonts (designspace and .glyphs) decoded with read-fonts/skrifa and evaluated at rows, midpoints and +-epsilon around every row.",
+    note='Trusted: Coq kernel + vm_compute; hand-written model with f64 as exact rationals and its correspondence run; read-fonts/skrifa as independent readers; Rust harness. No axioms. Two known findings (degenerate mappings) are listed in known_findings.txt.',
+)
